@@ -127,7 +127,7 @@ class Harness(cm.BaseB):
                         for site in (0, 1, 128, 129):
                             for arm in (0, 1, 2):
                                 yield {"k": "arg", "op": op, "via": via, "what": "pos", "grid": grid, "site": site, "arm": arm}
-                    for lc in ("", "Water free dispense", "a;b", "x" * 40):
+                    for lc in ("", "Water free dispense", "a;b", "x" * 40, "Water_\u03bcL \u2013 free", "Wasser \u00b5L"):
                         yield {"k": "arg", "op": op, "via": via, "what": "lc", "lc": lc}
                     # labware with more than 99 columns: column numbers of different length
                     for wells in (["A10", "B100"], ["A110", "B11"], ["A101", "B102"], ["A100", "B100"], ["A12", "B120"], ["A120", "B120"], ["A09", "B90"]):
@@ -369,10 +369,20 @@ class Harness(cm.BaseB):
             must_reject = ";" in lc
         exc, recs, before, after = self.execute(op, via, lw, geo, wells, tips, vols, lc=lc, pos=pos, arm=arm)
         V = []
+        try:
+            lc.encode("latin-1")
+            free = False
+        except UnicodeEncodeError:
+            # a liquid class that the file format cannot carry: refusing it is fine, naming another class is not
+            free = True
+            if exc is None and f',"{lc}",' not in recs[-1]:
+                return f"arg:{what}:accepted", repr(case), [("C13/arguments", f"{op} via {via}: liquid class {lc!r} -> {recs[-1]!r}")]
+            if exc is None:
+                return f"arg:{what}:ok", repr(case), []
         if exc is not None:
             if recs:
                 V.append(("C13/record-despite-rejection", f"{op} raised but appended {recs}"))
-            if not must_reject:
+            if not must_reject and not free:
                 V.append(("C13/expressible-call-rejected", f"{op} {case}: {type(exc).__name__}: {exc}"))
             return f"arg:{what}:refused", repr(case), V
         if must_reject:
